@@ -262,8 +262,22 @@ fn elaborated_case(ctx: &Ctx, ch: &mut Ch) -> Outcome {
             })
             .map_err(|p| Failure::new(format!("panic: {p}"), input.clone()).with_sig("panic"))?;
             match back {
-                Err(why) => return Err(tag(Failure::new(format!("the displayed {what} {why}"), input))),
+                Err(why) => {
+                    // The recorded finding about a group in the body of a group, seen from its other
+                    // side: merged on reading back, the inner group's names clash with names that
+                    // are bound again further in (the argument was substituted at several places).
+                    let orig = crate::dterm::D::from_gram(term);
+                    let f = Failure::new(format!("the displayed {what} {why}"), input);
+                    return Err(if why.contains("already exists") && orig != orig.flatten_body_groups() { f.with_sig(SIG_BODY_GROUP) } else { tag(f) });
+                }
                 Ok((d, _names)) => {
+                    let orig = crate::dterm::D::from_gram(term);
+                    if d != orig && d == orig.flatten_body_groups() {
+                        // The other recorded finding: substitution during checking put a group into
+                        // the *body* of a group (the parser never builds that); it is displayed
+                        // bare and read back as one merged group.
+                        return Err(Failure::new(format!("the displayed {what} has a group in the body of a group, which reads back merged into one group: `{}` vs `{}`", d.show(), orig.show()), input).with_sig(SIG_BODY_GROUP));
+                    }
                     if d != crate::dterm::D::from_gram(term) {
                         return Err(tag(Failure::new(format!("the displayed {what} reads back as a different term: `{}` vs `{}`", d.show(), crate::dterm::D::from_gram(term).show()), input)));
                     }
@@ -284,6 +298,8 @@ fn elaborated_case(ctx: &Ctx, ch: &mut Ch) -> Outcome {
     }
     Ok(())
 }
+
+pub const SIG_BODY_GROUP: &str = "group-in-the-body-of-a-group-is-displayed-merged";
 
 const REGRESSIONS: [&str; 6] = [
     "(x : (y = int; y)) => x",
